@@ -9,6 +9,7 @@ package props
 import (
 	"encoding/json"
 	"fmt"
+	godcp "github.com/Trendyol/go-dcp"
 	"os"
 	"path/filepath"
 	"sort"
@@ -636,5 +637,146 @@ func init() {
 		fmt.Sscan(a[2], &t.Start)
 		fmt.Sscan(a[3], &t.End)
 		return c02CheckJSON(t, a[4])
+	})
+}
+
+// ---------- (a'') read-only metadata mode through the real Dcp.Start(): whatever backend is configured or injected ----------
+
+type c02RO struct {
+	Backend string `json:"backend"` // custom | file
+	Auto    bool   `json:"auto"`    // checkpoint.type auto (5 ms) or manual
+	Reset   string `json:"reset"`   // earliest | latest ('latest' without documents flags the start positions for saving)
+	Stored  []int  `json:"stored"`  // per vBucket (8): stored seqno, 0 = no document
+	Events  []int  `json:"events"`  // per vBucket: events delivered and acknowledged
+}
+
+func c02ExecRODcp(sc c02RO) string {
+	const nvb = 8
+	cfg := laConfig()
+	cfg.Metadata.ReadOnly = true
+	cfg.Checkpoint.AutoReset = sc.Reset
+	if sc.Auto {
+		cfg.Checkpoint.Type = "auto"
+		cfg.Checkpoint.Interval = 5 * time.Millisecond
+	}
+	cl := newFakeClient(nvb)
+	stored := map[uint16]ckTuple{}
+	for v := 0; v < nvb; v++ {
+		cl.setHigh(uint16(v), 100)
+		if s := sc.Stored[v%len(sc.Stored)]; s > 0 {
+			stored[uint16(v)] = ckTuple{UUID: uint64(cl.failoverOf(uint16(v))[0].VbUUID), Seq: uint64(s), Start: uint64(s), End: uint64(s)}
+		}
+	}
+	fm := newFakeMeta()
+	var filePath string
+	var before []byte
+	if sc.Backend == "file" {
+		dir := os.Getenv("VERIF_WORK")
+		if dir == "" {
+			dir = os.TempDir()
+		}
+		filePath = filepath.Join(dir, fmt.Sprintf("c02ro-%d-%d.json", os.Getpid(), tick()))
+		defer os.Remove(filePath)
+		cfg.Metadata.Type = "file"
+		cfg.Metadata.Config = map[string]string{"fileName": filePath}
+		if len(stored) > 0 {
+			st := map[uint16]*models.CheckpointDocument{}
+			for v := 0; v < nvb; v++ { // the file backend stores whole states
+				st[uint16(v)] = c02DocOf(stored[uint16(v)], "u")
+			}
+			_ = metadata.NewFSMetadata(cfg).Save(st, nil, "u")
+		}
+		before, _ = os.ReadFile(filePath)
+	} else {
+		for vb, t := range stored {
+			fm.durable[vb] = t
+		}
+	}
+	cons := &fakeConsumer{onEvent: func(d *delivered) { d.Ctx.Ack() }}
+	d := godcp.VerifNewDcp(cfg, cl, cons, &couchbase.Version{Major: 7, Minor: 6}, &couchbase.BucketInfo{BucketType: "membase"})
+	if sc.Backend != "file" {
+		d.SetMetadata(fm)
+	}
+	done := make(chan any, 1)
+	go func() {
+		defer func() { done <- recover() }()
+		d.Start()
+	}()
+	select {
+	case <-d.WaitUntilReady():
+	case pv := <-done:
+		return fmt.Sprintf("read-only mode: Start() ended before readiness: %v", pv)
+	case <-time.After(20 * time.Second):
+		return "read-only mode: client did not become ready"
+	}
+	// loads are identical: every stream is requested from its stored document
+	for _, o := range cl.openLog() {
+		got := ckTuple{UUID: uint64(o.Off.VbUUID), Seq: o.Off.SeqNo, Start: o.Snap.StartSeqNo, End: o.Snap.EndSeqNo}
+		if want, has := stored[o.Vb]; has && got != want {
+			return fmt.Sprintf("read-only mode: vb %d requested with %+v, the stored document says %+v", o.Vb, got, want)
+		}
+	}
+	for v := 0; v < nvb; v++ {
+		o := cl.observer(uint16(v))
+		sq := stored[uint16(v)].Seq
+		for i := 0; i < sc.Events[v%len(sc.Events)]; i++ {
+			sq++
+			o.SnapshotMarker(models.DcpSnapshotMarker{VbID: uint16(v), StartSeqNo: sq, EndSeqNo: sq})
+			o.Mutation(gocbcore.DcpMutation{SeqNo: sq, VbID: uint16(v), Key: []byte("k"), Cas: 1})
+		}
+	}
+	d.Commit()
+	time.Sleep(20 * time.Millisecond)
+	d.Close()
+	select {
+	case pv := <-done:
+		if pv != nil {
+			return fmt.Sprintf("read-only mode: Start() panicked: %v", pv)
+		}
+	case <-time.After(20 * time.Second):
+		return "read-only mode: Close() did not stop the client"
+	}
+	if n := fm.callCount(); n != 0 {
+		return fmt.Sprintf("read-only metadata mode (backend %s, through Dcp.Start): the store received %d Save call(s)", sc.Backend, n)
+	}
+	if n := fm.clearCount(); n != 0 {
+		return fmt.Sprintf("read-only metadata mode (backend %s, through Dcp.Start): the store received %d Clear call(s)", sc.Backend, n)
+	}
+	if filePath != "" {
+		after, _ := os.ReadFile(filePath)
+		if string(after) != string(before) {
+			return "read-only metadata mode (file backend, through Dcp.Start): the checkpoint file changed"
+		}
+	}
+	return ""
+}
+
+func TestC02_ReadOnlyDcp(t *testing.T) {
+	rapid.Check(t, func(rt *rapid.T) {
+		sc := c02RO{Backend: rapid.SampledFrom([]string{"custom", "custom", "file"}).Draw(rt, "backend"), Auto: rapid.Bool().Draw(rt, "auto"),
+			Reset: rapid.SampledFrom([]string{"earliest", "latest"}).Draw(rt, "reset")}
+		sc.Stored = rapid.SliceOfN(rapid.SampledFrom([]int{0, 0, 1, 7, 50}), 1, 8).Draw(rt, "stored")
+		sc.Events = rapid.SliceOfN(rapid.IntRange(0, 3), 1, 8).Draw(rt, "events")
+		journal("C02", "c02rodcp", sc)
+		d := c02ExecRODcp(sc)
+		journalDone()
+		if d != "" {
+			violation(rt, "C02", "c02rodcp", sc, "%s", d)
+		}
+		ev := 0
+		for _, e := range sc.Events {
+			ev += e
+		}
+		record("C02", sc, ev > 0, "readonly_dcp_cases", "readonly_dcp_"+sc.Backend)
+	})
+}
+
+func init() {
+	registerReplay("c02rodcp", func(raw json.RawMessage) string {
+		var sc c02RO
+		if err := json.Unmarshal(raw, &sc); err != nil {
+			return err.Error()
+		}
+		return c02ExecRODcp(sc)
 	})
 }
